@@ -59,6 +59,34 @@ interpolation code of the temperature and abundance profiles needs, translated F
     `if x is not None: x = f(x)` for such an optional list: `Option.map (fun v => f v) x`; `if x is not None: y = f(x, y)`:
     `Option.elim x y (fun v => f v y)`; `np.array(l)` of an index list; a call / subscript whose whole source text is
     declared in `t_externals` (e.g. `GlobalCache()['deactive_molecules']`) is a parameter of the declared type.
+  * OPTIONAL ARRAYS (`('optl', t)`, t a list / index-list / 2-D 'rows' kind) beyond the update patterns above:
+    `if E is None: A else: B` for such a value `E` (a name / attribute): `Option.elim E (A; rest) (fun v => B; rest)` —
+    continuation style, inside `B` the expression `E` is the array `v`, inside `A` it is None; a function declared
+    `returns=('optl', t)` returns `none` for `return None` and `some e` for `return e`; the subscript `E[i]` of an optional
+    array unwraps it first: `Option.elim E (Except.error "TypeError") fun v => …` (Python: 'NoneType' object is not
+    subscriptable); `M[i]` for a 2-D array and an index: the row (`M.getD i []`, out of range totalised like the list mode);
+    `l.index(x)` for a list of names: `List.idxOf x l` behind the guard `List.contains l x` (Python raises ValueError when
+    `x` is absent); a `@property` translated as raising is bound by `match` where it is read.
+  * DICTS WITH LITERAL STRING KEYS AND ARRAY VALUES (the profile dictionaries of the output code): `d = {}` is the empty
+    insertion-ordered association list `List (String × Np.PyVal α)`; `d['key'] = e` (a string literal) is `Np.dictSet d
+    "key" v` (an existing key keeps its position and gets the new value, a new key is appended) where `v` injects the
+    value by its type: a 1-D array `Np.PyVal.arr`, a 2-D array `Np.PyVal.arr2`, `None` `Np.PyVal.none`, an optional array
+    `Option.elim e Np.PyVal.none Np.PyVal.arr2` (…`arr`); the dict may be passed on, returned, and stored into again.
+  * TEXT FILES OF NUMBERS AND LISTS OF ARRAYS (the chains files the nested-sampling wrappers read back).  A statement RANGE
+    of a function: `start_at=<text of its first statement>`, `stop_at=<text prefix of the first statement after it>`,
+    `free_locals={name: kind}` (locals the statements before have set: parameters), `result=[names]` (the value: the tuple
+    of these locals after the range).  `assume={'self.flag': True}`: the truth value of an attribute under the translated
+    calling pattern (tests on it are decided; one spec per pattern).  `locals={name: kind}` gives `x = []` its type ('list',
+    'rows', 'rows3' = a list of 2-D arrays, 'strlist'); `x.append(e)` appends (`x ++ [e]`); `[a]` of one array / 2-D array is
+    the one-element list of it.  `with <declared text> as f:` (`with_externals`) runs its body (the handle is only used
+    through declared texts: `f.readlines()` ↦ a `t_externals` list of lines).  Loops over a list of lines / rows / 2-D arrays
+    (`enumerate` too).  Strings: literals, `a == b`, `lines[i]` (Python's negative indices, `Np.getInt`), `s.split()` is the
+    parameter `splitWs : String → List String` (the whitespace-separated tokens), `toks[k:]`, `toks[k]`, `float(tok)` is the
+    parameter `parseFloat : String → α` (ValueError for a malformed token is not modelled).  2-D arrays: `M[:, lo:hi]` (the
+    slice of every row), `np.zeros((a, b))`, `M[i, :] = v` (`Np.setRow`: numpy raises unless `v` has the row's length or one
+    entry; totalised: the array is left unchanged), `M[i]`.  `fn_externals={<text>: (lean, [local names], kind)}`: an
+    expression whose value depends on the listed locals only through the outside world (a file named after a loop index)
+    is the parameter `lean` applied to them.
 Everything else is the list mode (read its docstring); what neither covers raises Untranslatable."""
 import ast
 import re
@@ -75,6 +103,7 @@ FRESH = {'np.cumsum', 'np.interp', 'np.log', 'np.log10', 'np.exp', 'np.sqrt', 'n
 class SeqFn(VFn):
     def __init__(self, spec, tree, src_lines, known_funcs):
         super().__init__(spec, tree, src_lines, known_funcs)
+        self.src_lines = src_lines
         if spec.get('getter'):
             body = tree.body
             for n in tree.body:
@@ -92,6 +121,10 @@ class SeqFn(VFn):
         self.raises = bool(spec.get('raises'))
         self.int_ext = spec.get('int_ext', 'pyInt')
         self.float_ext = spec.get('float_ext', 'toFloat')
+        self.assume = dict(spec.get('assume', {}))        # attribute text -> truth value under the translated calling pattern
+        self.local_kinds = dict(spec.get('locals', {}))   # local name -> kind of the list `x = []` starts
+        self.fn_ext = dict(spec.get('fn_externals', {}))  # expression text -> (lean name, [local names], kind)
+        self.with_ext = list(spec.get('with_externals', ()))   # texts of `with` context expressions whose body is run as it is
         self.pending = []                                 # guards / binds of the statement being translated, in order
         self.ntmp = 0
         self.nexits = 0                                   # error exits emitted so far
@@ -108,6 +141,10 @@ class SeqFn(VFn):
             return 'Option α'
         if k == 'strlist':
             return 'List String'
+        if k == 'anydict':
+            return 'List (String × Np.PyVal α)'
+        if k == 'rows3':
+            return 'List (List (List α))'
         if isinstance(k, tuple) and k[0] == 'plist':
             return 'List (%s × %s)' % (self.lean_ty(k[1][0]), self.lean_ty(k[1][1]))
         if isinstance(k, tuple) and k[0] == 'optl':
@@ -122,6 +159,24 @@ class SeqFn(VFn):
             if ty == 'nat':
                 return '(Int.ofNat %s)' % txt
         return super().co(res, want, node)
+
+    def default(self, ty, node=None):
+        if ty == 'strlist':
+            return '""'
+        if ty == 'rows3':
+            return '[]'
+        return super().default(ty, node)
+
+    ITER_ELEM = {'strlist': 'str', 'rows3': 'rows'}
+
+    def iterator(self, node, env):
+        if not isinstance(node, ast.Call):
+            snap = self.snapshot()
+            txt, ty = self.tx(node, env)
+            if ty in self.ITER_ELEM:                      # a list of lines / of 2-D arrays
+                return txt, self.ITER_ELEM[ty]
+            self.restore(snap)
+        return super().iterator(node, env)
 
     def to_float(self, res, node):
         """a Python number as a float: ints go through the parameter `toFloat`"""
@@ -155,6 +210,8 @@ class SeqFn(VFn):
                 self.fail(node, 'a run-time check inside a translated loop body')
             if item[0] == 'guard':
                 out += '%sif !%s then %s else\n' % (ind, item[1], self.err('ValueError', node))
+            elif item[0] == 'unwrap':                     # subscript of an optional array: None is not subscriptable
+                out += '%sOption.elim %s %s fun %s =>\n' % (ind, item[1], self.err('TypeError', node), item[2])
             else:
                 self.err('propagated', node)
                 out += '%smatch %s with\n%s| Except.error e__ => (Except.error e__)\n%s| Except.ok %s =>\n' % (
@@ -169,6 +226,8 @@ class SeqFn(VFn):
 
     # ------------------------------------------------------------------ static evaluation
     def static(self, node, env):
+        if isinstance(node, ast.Attribute) and ast.unparse(node) in self.assume:
+            return bool(self.assume[ast.unparse(node)])   # the calling pattern this spec translates
         if isinstance(node, ast.Compare) and len(node.ops) == 1 and isinstance(node.ops[0], (ast.Is, ast.IsNot)) \
                 and isinstance(node.comparators[0], ast.Constant) and node.comparators[0].value is None:
             ty = self.tx(node.left, env)[1]
@@ -208,6 +267,8 @@ class SeqFn(VFn):
         return super().arith(op, L, R, node)
 
     def compare(self, op, L, R, node):
+        if L[1] == 'str' and R[1] == 'str' and op in (ast.Eq, ast.NotEq):
+            return ('(%s == %s)' if op is ast.Eq else '(%s != %s)') % (L[0], R[0]), 'bool'
         if 'int' in (L[1], R[1]) and self.inty(L[1]) and self.inty(R[1]):
             a, b = self.co(L, 'int', node), self.co(R, 'int', node)
             rel = {ast.Lt: 'decide (%s < %s)' % (a, b), ast.LtE: 'decide (%s ≤ %s)' % (a, b),
@@ -232,6 +293,35 @@ class SeqFn(VFn):
     def call(self, node, env):
         full = ast.unparse(node.func)
         A = node.args
+        if isinstance(node.func, ast.Attribute) and node.func.attr == 'split' and not A and not node.keywords:
+            snap = self.snapshot()
+            b = self.tx(node.func.value, env)
+            if b[1] == 'str':                             # s.split(): the whitespace-separated tokens of the string
+                nm = self.spec.get('split_ext', 'splitWs')
+                self.add_param(nm, 'String → List String')
+                return '(%s %s)' % (nm, b[0]), 'strlist'
+            self.restore(snap)
+        if full == 'float' and len(A) == 1 and not node.keywords:
+            r = self.tx(A[0], env)
+            if r[1] == 'str':                             # float(token): the number the token denotes
+                nm = self.spec.get('float_parse_ext', 'parseFloat')
+                self.add_param(nm, 'String → α')
+                return '(%s %s)' % (nm, r[0]), 's'
+            if r[1] == 's':
+                return r
+            return self.to_float(r, node), 's'
+        if full == 'len' and len(A) == 1 and not node.keywords and not (isinstance(A[0], ast.Attribute)
+                                                                        and A[0].attr == 'shape'):
+            snap = self.snapshot()
+            r = self.tx(A[0], env)
+            if r[1] in ('strlist', 'rows3'):
+                return self.length(r[0]), 'nat'
+            self.restore(snap)
+        if full in ('np.zeros', 'numpy.zeros') and len(A) == 1 and not node.keywords and isinstance(A[0], ast.Tuple) \
+                and len(A[0].elts) == 2:
+            a, b = (self.co(self.tx(e, env), 'nat', e) for e in A[0].elts)
+            self.literals.add(0)
+            return '(List.replicate %s (List.replicate %s (0 : α)))' % (a, b), 'rows'
         if full == 'int' and len(A) == 1 and not node.keywords:
             r = self.tx(A[0], env)
             if self.inty(r[1]):
@@ -283,6 +373,13 @@ class SeqFn(VFn):
             b = self.tx(node.func.value, env)
             if b[1] == 'list':
                 return '(Np.argmin %s)' % b[0], 'nat'
+        if isinstance(node.func, ast.Attribute) and node.func.attr == 'index' and len(A) == 1 and not node.keywords:
+            snap = self.snapshot()
+            b, x = self.tx(node.func.value, env), self.tx(A[0], env)
+            if b[1] == 'strlist' and x[1] == 'str':      # l.index(x): the first position; ValueError when x is absent
+                self.pending.append(('guard', '(List.contains %s %s)' % (b[0], x[0])))
+                return '(List.idxOf %s %s)' % (x[0], b[0]), 'nat'
+            self.restore(snap)
         if full in self.known and not self.known[full].get('prop') and self.known[full].get('seq') \
                 and self.known[full].get('raises'):
             txt, ty = self.call_known(full, node.args, node, env, node.keywords)
@@ -295,6 +392,12 @@ class SeqFn(VFn):
         t = ast.unparse(node)
         if t not in env and t in self.attrs and self.attrs[t][1] == 'none':
             return '()', 'none'                           # an attribute the calling pattern leaves None: no parameter
+        if t not in env and t in self.known and self.known[t].get('prop') and self.known[t].get('seq') \
+                and self.known[t].get('raises'):
+            txt, ty = self.call_known(t, [], node, env)   # a @property that may raise: the exception propagates
+            tmp = self.fresh()
+            self.pending.append(('bind', txt, tmp))
+            return tmp, ty
         return super().attr_read(node, env)
 
     def opt_name(self, node, env):
@@ -317,6 +420,26 @@ class SeqFn(VFn):
             self.rename = saved
 
     def tx(self, node, env):
+        if isinstance(node, ast.Constant) and isinstance(node.value, str):
+            import json
+            return json.dumps(node.value, ensure_ascii=False), 'str'
+        if isinstance(node, ast.Call) and ast.unparse(node) in self.fn_ext:
+            nm, names, kind = self.fn_ext[ast.unparse(node)]
+            tys = []
+            for n in names:
+                if env.get(n) not in ('nat', 's', 'str'):
+                    self.fail(node, 'the external depends on %s, which is not a number / index / name here' % n)
+                tys.append(self.lean_ty(env[n]))
+            lt = self.lean_ty(kind)
+            self.add_param(nm, ' → '.join(tys + [lt if ' ' not in lt else '(%s)' % lt]))
+            return '(%s %s)' % (nm, ' '.join(self.var(n) for n in names)), kind
+        if isinstance(node, ast.List) and node.elts and not any(isinstance(e, ast.Starred) for e in node.elts):
+            snap = self.snapshot()
+            rs = [self.tx(e, env) for e in node.elts]
+            up = {'list': 'rows', 'rows': 'rows3'}
+            if rs[0][1] in up and all(r[1] == rs[0][1] for r in rs):      # a Python list of arrays
+                return '[' + ', '.join(r[0] for r in rs) + ']', up[rs[0][1]]
+            self.restore(snap)
         if isinstance(node, (ast.Name, ast.Attribute, ast.Subscript)) and '#ref:' + ast.unparse(node) in env:
             return env['#ref:' + ast.unparse(node)]       # an optional value inside a branch that has tested it
         if isinstance(node, (ast.Call, ast.Compare, ast.BoolOp)) and ast.unparse(node) in self.bext:
@@ -429,6 +552,63 @@ class SeqFn(VFn):
 
     def sub(self, node, env):
         base = node.value
+        if isinstance(base, (ast.Name, ast.Attribute, ast.Call, ast.Subscript)) \
+                and not (isinstance(base, ast.Attribute) and base.attr == 'shape'):
+            snap = self.snapshot()
+            try:
+                bt, bty = self.tx(base, env)
+            except Untranslatable:
+                bt, bty = None, None
+            if isinstance(bty, tuple) and bty[0] == 'optl' and isinstance(base, (ast.Name, ast.Attribute)):
+                # the subscript of a value that may be None: Python raises TypeError for None, else subscripts the array
+                self.ntmp += 1
+                v = 'v%d__' % self.ntmp
+                self.pending.append(('unwrap', bt, v))
+                env2 = dict(env)
+                env2['#ref:' + ast.unparse(base)] = (v, bty[1])
+                return self.sub(node, env2)
+            if bty in ('strlist', 'rows3'):
+                idxs = self.strip_ellipsis(node.slice)
+                i = idxs[0] if len(idxs) == 1 else None
+                if isinstance(i, ast.Slice) and i.step is None and i.upper is None and i.lower is not None \
+                        and self.neg_const(i.lower) is None:
+                    snap2 = self.snapshot()
+                    lo = self.tx(i.lower, env)
+                    if lo[1] == 'nat' or is_lit(lo[1]):  # toks[k:]
+                        return '(List.drop %s %s)' % (self.co(lo, 'nat', node), bt), bty
+                    self.restore(snap2)
+                elif i is not None and not isinstance(i, ast.Slice) and self.neg_const(i) is None:
+                    snap2 = self.snapshot()
+                    it, ity = self.tx(i, env)
+                    el = self.ITER_ELEM[bty]
+                    if ity == 'nat' or is_lit(ity):       # toks[k] / arrays[k] (IndexError totalised like the list mode)
+                        return '(%s.getD %s %s)' % (bt if simple(bt) else '(%s)' % bt, self.co((it, ity), 'nat', node),
+                                                    self.default(bty, node)), el
+                    if ity == 'int':                      # lines[idx - 1]: Python's negative indices
+                        return '(Np.getInt %s %s %s)' % (self.default(bty, node), bt, it), el
+                    self.restore(snap2)
+            if bty == 'rows':
+                idxs = self.strip_ellipsis(node.slice)
+                if len(idxs) == 2 and isinstance(idxs[0], ast.Slice) and not (idxs[0].lower or idxs[0].upper or idxs[0].step) \
+                        and isinstance(idxs[1], ast.Slice) and idxs[1].step is None:
+                    # M[:, lo:hi]: the slice lo:hi of every row
+                    e2 = dict(env)
+                    e2['r__'] = 'list'
+                    row = ast.Subscript(value=ast.Name(id='r__', ctx=ast.Load()), slice=idxs[1], ctx=ast.Load())
+                    ast.copy_location(row, node)
+                    ast.fix_missing_locations(row)
+                    n0 = len(self.pending)
+                    rt, rty = self.sub(row, e2)
+                    if len(self.pending) != n0 or rty != 'list':
+                        self.fail(node, 'unsupported column slice of a 2-D array')
+                    return '(List.map (fun r__ => %s) %s)' % (rt, bt), 'rows'
+                if len(idxs) == 1 and not isinstance(idxs[0], ast.Slice) and self.neg_const(idxs[0]) is None:
+                    snap2 = self.snapshot()
+                    it, ity = self.tx(idxs[0], env)
+                    if ity == 'nat' or is_lit(ity):       # M[i]: the i-th row of a 2-D array
+                        return '(%s.getD %s [])' % (bt if simple(bt) else '(%s)' % bt, self.co((it, ity), 'nat', node)), 'list'
+                    self.restore(snap2)
+            self.restore(snap)
         if not (isinstance(base, ast.Attribute) and base.attr == 'shape'):
             idxs = self.strip_ellipsis(node.slice)
             if len(idxs) == 1:
@@ -482,6 +662,22 @@ class SeqFn(VFn):
                 out |= self.roots(node.func.value, env)
             return out
         return set()                                      # arithmetic, comparisons, literals: new objects
+
+    def vassigned(self, stmts, env=None):
+        """… plus the lists grown by `x.append(e)` statements (at any depth: the base rule recurses through this method)"""
+        out = []
+        for s in stmts:
+            if isinstance(s, ast.Expr) and isinstance(s.value, ast.Call) and isinstance(s.value.func, ast.Attribute) \
+                    and s.value.func.attr == 'append' and isinstance(s.value.func.value, ast.Name):
+                ks = [s.value.func.value.id]
+            elif isinstance(s, ast.With):
+                ks = self.vassigned(s.body, env)
+            else:
+                ks = super().vassigned([s], env)
+            for k in ks:
+                if k not in out:
+                    out.append(k)
+        return out
 
     def note_binding(self, target, value, env):
         key = self.target_key(target)
@@ -555,6 +751,18 @@ class SeqFn(VFn):
             self.fail(t, 'unsupported store into an attribute')
         txt = super().store(t, value, op, env, ind)
         return self.flush(ind, ctx, t) + txt
+
+    def inject(self, res, node):
+        """a typed value as an entry of a dict of arrays (`Np.PyVal α`)"""
+        txt, ty = res
+        con = {'list': 'Np.PyVal.arr', 'rows': 'Np.PyVal.arr2'}
+        if ty in con:
+            return '(%s %s)' % (con[ty], txt)
+        if ty == 'none':
+            return 'Np.PyVal.none'
+        if isinstance(ty, tuple) and ty[0] == 'optl' and ty[1] in con:
+            return '(Option.elim %s Np.PyVal.none %s)' % (txt, con[ty[1]])
+        self.fail(node, 'a %s as the value of a dict entry' % (ty,))
 
     def raise_text(self, s):
         if self.raises and s.exc is not None:
@@ -728,6 +936,33 @@ class SeqFn(VFn):
         self.nexits += 1
         return out + self.unpack_keys(names, tys, tmp, ind, env)
 
+    def optl_refine(self, s, rest, env, ind, tail, ctx):
+        """`if E is None: A else: B` for an optional ARRAY E (`('optl', t)`, a name or attribute), in continuation style:
+        `Option.elim E (A; rest) (fun v => B; rest)`; in B (and the statements after the conditional on that path) E is the
+        array `v`, in A it is None.  None: not this pattern"""
+        t = s.test
+        if not (isinstance(t, ast.Compare) and len(t.ops) == 1 and isinstance(t.ops[0], (ast.Is, ast.IsNot))
+                and isinstance(t.comparators[0], ast.Constant) and t.comparators[0].value is None
+                and isinstance(t.left, (ast.Name, ast.Attribute))):
+            return None
+        snap = self.snapshot()
+        etxt, ety = self.tx(t.left, env)
+        if not (isinstance(ety, tuple) and ety[0] == 'optl') or self.pending != snap[1]:
+            self.restore(snap)
+            return None
+        if ctx.get('cont'):
+            self.fail(s, 'a test of an optional array inside a translated loop body')
+        text = ast.unparse(t.left)
+        none_body, some_body = (s.body, s.orelse) if isinstance(t.ops[0], ast.Is) else (s.orelse, s.body)
+        self.ntmp += 1
+        v = 'v%d__' % self.ntmp
+        en, es = dict(env), dict(env)
+        en['#ref:' + text] = ('()', 'none')
+        es['#ref:' + text] = (v, ety[1])
+        nb = self.block(list(none_body) + list(rest), en, ind + '    ', tail, ctx)
+        sb = self.block(list(some_body) + list(rest), es, ind + '    ', tail, ctx)
+        return '%sOption.elim %s (\n%s%s  ) (fun %s =>\n%s%s  )\n' % (ind, etxt, nb, ind, v, sb, ind)
+
     def unzip_try(self, s, env, ind, ctx):
         """try: a, b = zip(*L)  except ValueError: a, b = e1, e2   (L a list of pairs; see the module docstring)"""
         h = s.handlers[0] if len(s.handlers) == 1 else None
@@ -807,6 +1042,21 @@ class SeqFn(VFn):
                     continue
                 if re.search(self.ignore_calls, ast.unparse(s.value)):
                     continue
+            if isinstance(s, ast.Expr) and isinstance(s.value, ast.Call) and isinstance(s.value.func, ast.Attribute) \
+                    and s.value.func.attr == 'append' and isinstance(s.value.func.value, ast.Name) \
+                    and len(s.value.args) == 1 and not s.value.keywords \
+                    and env.get(s.value.func.value.id) in ('list', 'rows', 'rows3', 'strlist', 'natlist'):
+                x = s.value.func.value.id                 # x.append(e): the list with one more element
+                want = {'list': 's', 'rows': 'list', 'rows3': 'rows', 'strlist': 'str', 'natlist': 'nat'}[env[x]]
+                e = self.co(self.tx(s.value.args[0], env), want, s)
+                out += self.flush(ind, ctx, s)
+                self.gen[x] = self.gen.get(x, 0) + 1
+                out += '%slet %s := (%s ++ [%s])\n' % (ind, self.var(x), self.var(x), e)
+                self.invalidate(x, env)
+                continue
+            if isinstance(s, ast.With) and len(s.items) == 1 and ast.unparse(s.items[0].context_expr) in self.with_ext:
+                # the handle is used only through declared texts (`f.readlines()`): the body runs as it is
+                return out + self.block(list(s.body) + list(rest), env, ind, tail, ctx)
             if isinstance(s, ast.Try):
                 out += self.unzip_try(s, env, ind, ctx)
                 continue
@@ -831,6 +1081,13 @@ class SeqFn(VFn):
                 out += self.flush(ind, ctx, s)
                 if is_lit(res[1]):
                     res = (self.co(res, 's', s), 's')
+                want = self.spec.get('returns')
+                if isinstance(want, tuple) and want[0] == 'optl':
+                    # declared optional result: `return None` is `none`, `return e` is `some e`
+                    if res[1] == 'none':
+                        res = ('none', want)
+                    elif res[1] == want[1]:
+                        res = ('(some %s)' % res[0], want)
                 if self.ret is not None and self.ret != res[1]:
                     self.fail(s, 'return values of different types (%s, %s)' % (self.ret, res[1]))
                 self.ret = res[1]
@@ -839,8 +1096,44 @@ class SeqFn(VFn):
                 if len(s.targets) != 1:
                     self.fail(s, 'multiple assignment targets')
                 t = s.targets[0]
+                if isinstance(t, ast.Name) and isinstance(s.value, ast.Dict) and not s.value.keys:
+                    env[t.id] = 'anydict'                 # `d = {}`: the empty insertion-ordered dict
+                    self.gen[t.id] = self.gen.get(t.id, 0) + 1
+                    out += '%slet %s : %s := []\n' % (ind, self.var(t.id), self.lean_ty('anydict'))
+                    continue
+                if isinstance(t, ast.Subscript) and isinstance(t.value, ast.Name) and env.get(t.value.id) == 'anydict':
+                    if not (isinstance(t.slice, ast.Constant) and isinstance(t.slice.value, str)):
+                        self.fail(s, 'a dict store whose key is not a string literal')
+                    res = self.tx(s.value, env)
+                    out += self.flush(ind, ctx, s)
+                    d = self.var(t.value.id)
+                    self.gen[t.value.id] = self.gen.get(t.value.id, 0) + 1
+                    out += '%slet %s := (Np.dictSet %s "%s" %s)\n' % (ind, d, d, t.slice.value, self.inject(res, s))
+                    continue
+                if isinstance(t, ast.Subscript) and isinstance(t.value, ast.Name) and env.get(t.value.id) == 'rows' \
+                        and isinstance(t.slice, ast.Tuple) and len(t.slice.elts) == 2 \
+                        and isinstance(t.slice.elts[1], ast.Slice) and not (t.slice.elts[1].lower or t.slice.elts[1].upper
+                                                                            or t.slice.elts[1].step):
+                    # M[i, :] = v: row i of a 2-D array (numpy raises unless v has the row's length or one entry)
+                    self.check_store(t.value.id, env, s)
+                    i = self.co(self.tx(t.slice.elts[0], env), 'nat', s)
+                    v = self.co(self.tx(s.value, env), 'list', s)
+                    out += self.flush(ind, ctx, s)
+                    m = self.var(t.value.id)
+                    self.gen[t.value.id] = self.gen.get(t.value.id, 0) + 1
+                    out += '%slet %s := (Np.setRow %s %s %s)\n' % (ind, m, m, i, v)
+                    continue
                 if isinstance(t, ast.Subscript):
                     out += self.store(t, s.value, None, env, ind, s, ctx)
+                    continue
+                if isinstance(t, ast.Name) and isinstance(s.value, ast.List) and not s.value.elts \
+                        and t.id in self.local_kinds:
+                    k = self.local_kinds[t.id]            # `x = []` with a declared element type
+                    env[t.id] = k
+                    self.gen[t.id] = self.gen.get(t.id, 0) + 1
+                    out += '%slet %s : %s := []\n' % (ind, self.var(t.id), self.lean_ty(k))
+                    self.note_binding(t, None, env)
+                    self.invalidate(t.id, env)
                     continue
                 if isinstance(t, ast.Name) and isinstance(s.value, ast.List) and not s.value.elts:
                     env[t.id] = 'emptylist'               # `x = []`: a value that must be overwritten before it is used
@@ -891,6 +1184,9 @@ class SeqFn(VFn):
                 if od is not None:
                     out += od
                     continue
+                od = self.optl_refine(s, rest, env, ind, tail, ctx)
+                if od is not None:
+                    return out + od
                 c = self.cond(s.test, env)
                 out += self.flush(ind, ctx, s)
                 if self.jumps(s.body):
@@ -971,7 +1267,46 @@ class SeqFn(VFn):
             tail = (lambda e: '(Except.ok %s)' % self.state_value(e)) if self.raises else (lambda e: self.state_value(e))
         else:
             tail = None
-        body = self.block(node.body, env, '  ', tail)
+        stmts = list(node.body)
+        if self.spec.get('start_at') or self.spec.get('stop_at'):
+            # a statement range of the body: from the statement whose text is `start_at` up to (not including) the first
+            # statement after it whose text starts with `stop_at`; its value is the tuple of the `result` locals
+            texts = [ast.unparse(x) for x in stmts]
+            a = 0
+            if self.spec.get('start_at'):
+                hits = [i for i, t in enumerate(texts) if t == self.spec['start_at']]
+                if len(hits) != 1:
+                    raise Untranslatable('%s: start_at statement not found exactly once' % self.spec['func'])
+                a = hits[0]
+            b = len(stmts)
+            if self.spec.get('stop_at'):
+                hits = [i for i, t in enumerate(texts) if i > a and t.startswith(self.spec['stop_at'])]
+                if not hits:
+                    raise Untranslatable('%s: stop_at statement not found' % self.spec['func'])
+                b = hits[0]
+            stmts = stmts[a:b]
+            self.lineno = stmts[0].lineno
+            self.src = ''.join(self.src_lines[stmts[0].lineno - 1:stmts[-1].end_lineno])
+            for n, k in self.spec.get('free_locals', {}).items():
+                env[n] = k
+                params.append('(%s : %s)' % (self.var(n), self.lean_ty(k)))
+            names = list(self.spec['result'])
+
+            def tail(e, names=names):
+                for n in names:
+                    if n not in e:
+                        raise Untranslatable('%s: result %s is not assigned on every path' % (self.spec['func'], n))
+                rec = []
+                self.pack(names, e, None, rec)
+                tys = [('nat' if is_lit(t) else t) for t in rec[0]]
+                ret = ('tuple', tuple(tys)) if len(tys) > 1 else tys[0]
+                if self.ret is not None and self.ret != ret:
+                    raise Untranslatable('%s: results of different types on different paths' % self.spec['func'])
+                self.ret = ret
+                v = self.pack(names, e, tys)
+                return '(Except.ok %s)' % v if self.raises else v
+            self.known_segment = (self.spec.get('start_at'), self.spec.get('stop_at'), tuple(names))
+        body = self.block(stmts, env, '  ', tail)
         if self.pending:
             raise Untranslatable('%s: a run-time check was not attached to a statement' % self.spec['func'])
         if self.ret is None:
@@ -984,4 +1319,7 @@ class SeqFn(VFn):
         head = 'def %s %s%s : %s :=\n' % (self.spec.get('lean', self.spec['func']), ' '.join(params), extra, rty)
         self.known_extra = dict(ret=self.ret, state=list(self.state), prop=bool(self.spec.get('prop')),
                                 raises=self.raises, seq=True)
+        if getattr(self, 'known_segment', None):
+            self.known_extra['segment'] = self.known_segment
+            self.known_extra['free_locals'] = dict(self.spec.get('free_locals', {}))
         return head + body
